@@ -6505,6 +6505,14 @@ func ruleR04_14(p *Program, r *Report) {
 			}
 			return fromCount(x.X, d+1, seen) || fromCount(x.Y, d+1, seen)
 		case *ssa.Phi:
+			// a copy that a loop counts down is no longer the number of symbols the entry packed
+			for _, e := range x.Edges {
+				if bo, ok := stripConv(e).(*ssa.BinOp); ok && (bo.Op == token.SUB || bo.Op == token.ADD) {
+					if _, isK := constInt(bo.Y); isK && stripConv(bo.X) == ssa.Value(x) {
+						return false
+					}
+				}
+			}
 			for _, e := range x.Edges {
 				if fromCount(e, d+1, seen) {
 					return true
@@ -6940,4 +6948,278 @@ func minCallArgs(v ssa.Value) ([]ssa.Value, bool) {
 		}
 	}
 	return com.Args, nret == 2
+}
+
+// ---------- R15.4: no error dropped by a large io.ReadFull ----------
+
+func init() {
+	extend("C15", Rule{ID: "R15.4", Configs: "all", Run: ruleR15_4},
+		"(R15.4) io.ReadFull drops an error that arrives together with the last bytes it asked for; through a bufio.Reader that is harmless only while the request is smaller than the smallest bufio buffer (16 bytes), because bufio keeps the error pending for reads it serves from its buffer and forgets it for reads it passes straight to the source. Every io.ReadFull / io.ReadAtLeast in the gzip and zlib readers therefore has a constant-size target below 16 bytes; a variable-length field (gzip FEXTRA) is read by a loop that keeps the error.")
+}
+
+func ruleR15_4(p *Program, r *Report) {
+	r.Expect("R15.4", 5)
+	const minBufio = 16
+	gz, zl := p.Pkg(gzipRel), p.Pkg(zlibRel)
+	for _, fn := range p.Funcs() {
+		if fn.Pkg == nil || (fn.Pkg != gz && fn.Pkg != zl) {
+			continue
+		}
+		lab := newLabeler()
+		for _, c := range allCalls(fn) {
+			f := c.Common().StaticCallee()
+			if f == nil || !(isFunc(f, "io", "ReadFull") || isFunc(f, "io", "ReadAtLeast")) {
+				continue
+			}
+			buf := c.Common().Args[1]
+			_, _, lo, hi, fixed := sliceBounds(buf)
+			why := ""
+			switch {
+			case !fixed:
+				why = "the target " + describeArg(buf) + " has no constant size: once it is as large as the bufio buffer the read goes straight to the source, and an error the source returns with the last bytes (and not again) is dropped by " + f.Name() + " and forgotten by bufio"
+			case hi-lo >= minBufio:
+				why = "the target is " + itoa(int(hi-lo)) + " bytes, not below the smallest bufio buffer (" + itoa(minBufio) + ")"
+			}
+			r.Check(why == "", "R15.4", shortFn(fn)+"|"+lab.get(f.Name()), p.InstrPos(c), "io.ReadFull on the source only for constant sizes below the smallest bufio buffer", why)
+		}
+	}
+}
+
+// ---------- R02.22: no read of a scratch element right after clearing it ----------
+
+func init() {
+	extend("C02", Rule{ID: "R02.22", Configs: "all", Run: ruleR02_22},
+		"(R02.22) in straight-line code no element of an object's state is read after the same block has stored the constant zero into it with no store or call in between: the value read is always 0, so either the clear or the read is misplaced (the carried count of the expanded length codes read below the block that resets it).")
+	controlRegistry["C02"] = append(controlRegistry["C02"], Control{Rule: "R02.22", Run: ruleR02_22, MustFire: []string{"readAfterClear"}})
+}
+
+// exactAddr names an address built from field selections and constant indexes only.
+func exactAddr(v ssa.Value) (ssa.Value, string, bool) {
+	path := ""
+	for depth := 0; depth < 16; depth++ {
+		switch x := v.(type) {
+		case *ssa.FieldAddr:
+			path = "." + derefStruct(x.X.Type()).Field(x.Field).Name() + path
+			v = x.X
+		case *ssa.IndexAddr:
+			k, ok := constInt(x.Index)
+			if !ok {
+				return nil, "", false
+			}
+			path = "[" + itoa(int(k)) + "]" + path
+			v = x.X
+		default:
+			return v, path, path != ""
+		}
+	}
+	return nil, "", false
+}
+
+func ruleR02_22(p *Program, r *Report) {
+	r.Expect("R02.22", 1)
+	n := 0
+	type loc struct {
+		root ssa.Value
+		path string
+	}
+	for _, fn := range p.Funcs() {
+		if isExamples(fn) {
+			continue
+		}
+		lab := newLabeler()
+		for _, b := range fn.Blocks {
+			cleared := map[loc]ssa.Instruction{}
+			for _, in := range b.Instrs {
+				switch x := in.(type) {
+				case *ssa.Store:
+					root, path, ok := exactAddr(x.Addr)
+					if !ok {
+						// a store through a variable index or an unknown pointer may hit anything
+						cleared = map[loc]ssa.Instruction{}
+						continue
+					}
+					if k, isK := constInt(x.Val); isK && k == 0 {
+						cleared[loc{root, path}] = in
+					} else {
+						delete(cleared, loc{root, path})
+					}
+				case ssa.CallInstruction:
+					if _, isB := x.Common().Value.(*ssa.Builtin); !isB {
+						cleared = map[loc]ssa.Instruction{}
+					}
+				case *ssa.UnOp:
+					if x.Op != token.MUL {
+						continue
+					}
+					root, path, ok := exactAddr(x.X)
+					if !ok {
+						continue
+					}
+					if st, was := cleared[loc{root, path}]; was {
+						n++
+						r.Fail("R02.22", shortFn(fn)+"|"+lab.get("read of "+path+" after its clear"), p.InstrPos(in), "no element is read right after the block has cleared it", "the load of "+path+" at "+p.InstrPos(in)+" follows the store of 0 at "+p.InstrPos(st)+" with nothing in between that could change it: the value is always 0, a count carried over from the previous step is lost")
+					}
+				}
+			}
+		}
+	}
+	if n == 0 {
+		r.OK("R02.22", "census", "-", "no read of a state element directly after its clear")
+	}
+}
+
+// ---------- R02.23: the base of a recurrence over persistent scratch is set before the loop ----------
+
+func init() {
+	extend("C02", Rule{ID: "R02.23", Configs: "all", Run: ruleR02_23},
+		"(R02.23) a loop that fills an array field of a long-lived object by a recurrence (field[i+c] computed from field[i+d], d < c, i counting from a constant k) finds its base elements field[k+d .. k+c-1] stored earlier in the same function on every path to the loop: scratch that lives in the Reader still holds the previous block's values (nextCode[1] after a block with a one-bit code).")
+}
+
+func ruleR02_23(p *Program, r *Report) {
+	r.Expect("R02.23", 1)
+	// idx = phi + c
+	split := func(v ssa.Value) (*ssa.Phi, int64, bool) {
+		v = stripConv(v)
+		if ph, ok := v.(*ssa.Phi); ok {
+			return ph, 0, true
+		}
+		if bo, ok := v.(*ssa.BinOp); ok && (bo.Op == token.ADD || bo.Op == token.SUB) {
+			if ph, ok := stripConv(bo.X).(*ssa.Phi); ok {
+				if k, isK := constInt(bo.Y); isK {
+					if bo.Op == token.SUB {
+						k = -k
+					}
+					return ph, k, true
+				}
+			}
+		}
+		return nil, 0, false
+	}
+	for _, fn := range p.Funcs() {
+		if isExamples(fn) || len(fn.Params) == 0 {
+			continue
+		}
+		lab := newLabeler()
+		type acc struct {
+			in  ssa.Instruction
+			off int64
+		}
+		type arr struct {
+			root ssa.Value
+			path string
+			phi  *ssa.Phi
+		}
+		stores, loads := map[arr][]acc{}, map[arr][]acc{}
+		for _, b := range fn.Blocks {
+			for _, in := range b.Instrs {
+				var addr ssa.Value
+				isStore := false
+				switch x := in.(type) {
+				case *ssa.Store:
+					addr, isStore = x.Addr, true
+				case *ssa.UnOp:
+					if x.Op == token.MUL {
+						addr = x.X
+					}
+				}
+				ia, ok := addr.(*ssa.IndexAddr)
+				if !ok {
+					continue
+				}
+				if _, isArr := derefArray(ia.X.Type()); !isArr {
+					continue
+				}
+				root, path, exact := exactAddr(ia.X)
+				if !exact {
+					continue
+				}
+				if _, isParam := root.(*ssa.Parameter); !isParam {
+					continue
+				}
+				ph, off, ok := split(ia.Index)
+				if !ok || ph.Block() == nil {
+					continue
+				}
+				k := arr{root, path, ph}
+				if isStore {
+					stores[k] = append(stores[k], acc{in, off})
+				} else {
+					loads[k] = append(loads[k], acc{in, off})
+				}
+			}
+		}
+		for k, sts := range stores {
+			// the induction variable starts at a constant
+			start, hasStart := int64(0), false
+			for i, e := range k.phi.Edges {
+				if c, isK := constInt(e); isK && !k.phi.Block().Dominates(k.phi.Block().Preds[i]) {
+					start, hasStart = c, true
+				}
+			}
+			if !hasStart {
+				continue
+			}
+			for _, st := range sts {
+				for _, ld := range loads[k] {
+					if ld.off >= st.off || ld.in.Block() != st.in.Block() {
+						continue
+					}
+					// a recurrence: the value stored is computed from the element loaded
+					if !valueDependsOn(st.in.(*ssa.Store).Val, ld.in.(ssa.Value), 12) {
+						continue
+					}
+					// base elements start+ld.off .. start+st.off-1
+					var missing []string
+					for j := start + ld.off; j < start+st.off; j++ {
+						want := k.path + "[" + itoa(int(j)) + "]"
+						found := false
+						for _, b := range fn.Blocks {
+							if !b.Dominates(k.phi.Block()) || b == k.phi.Block() {
+								continue
+							}
+							for _, in := range b.Instrs {
+								if s2, ok := in.(*ssa.Store); ok {
+									// the element itself, or the whole array / enclosing struct assigned at once
+									if r2, p2, ex := exactAddr(s2.Addr); ex && r2 == k.root && (p2 == want || strings.HasPrefix(k.path+"[", p2+"[") || strings.HasPrefix(k.path, p2+".")) {
+										found = true
+									}
+								}
+							}
+						}
+						if !found {
+							missing = append(missing, want)
+						}
+					}
+					why := ""
+					if len(missing) > 0 {
+						why = "the recurrence at " + p.InstrPos(st.in) + " reads " + strings.Join(missing, ", ") + " on its first round, and no statement in front of the loop stores it: the element still holds what the previous block (or stream) left there"
+					}
+					r.Check(why == "", "R02.23", shortFn(fn)+"|"+lab.get("recurrence over "+k.path), p.InstrPos(st.in), "the base elements of a recurrence over persistent scratch are stored before the loop", why)
+				}
+			}
+		}
+	}
+}
+
+// valueDependsOn: v is computed from target through at most depth operand steps (phis not crossed).
+func valueDependsOn(v, target ssa.Value, depth int) bool {
+	if v == target {
+		return true
+	}
+	if depth == 0 {
+		return false
+	}
+	in, ok := v.(ssa.Instruction)
+	if !ok {
+		return false
+	}
+	if _, isPhi := v.(*ssa.Phi); isPhi {
+		return false
+	}
+	for _, op := range in.Operands(nil) {
+		if *op != nil && valueDependsOn(*op, target, depth-1) {
+			return true
+		}
+	}
+	return false
 }
